@@ -234,6 +234,9 @@ def gc_shard(variant, plan, rnd, ops, flags=(), mutators=None, workers=None, hea
     d = dict(pkg="gcsim", variant=variant, args=args, timeout=600)
     if finding:
         d["finding"] = finding
+        # a configuration that is known to corrupt the heap may also hang: do not wait long
+        i = args.index("--watchdog")
+        args[i + 1] = 40
     return d
 
 
